@@ -98,10 +98,15 @@ func c15Child(in json.RawMessage) (interface{}, error) {
 	}
 	// per-writer disjoint id spaces so that the final content is known without a linearization
 	finals := make([]map[string]string, cs.Writers)
+	// unsafe mode: the state of the writer's id space after each of its batches, and how many of its batches
+	// are known to be on disk (persisted call-back with a nil error)
+	states := make([][]string, cs.Writers)
+	persistedUpTo := make([]int32, cs.Writers)
 	var wg sync.WaitGroup
 	stopReaders := int32(0)
 	for wi := 0; wi < cs.Writers; wi++ {
 		finals[wi] = map[string]string{}
+		states[wi] = []string{"[]"}
 		wg.Add(1)
 		go func(wi int) {
 			defer wg.Done()
@@ -129,7 +134,28 @@ func c15Child(in json.RawMessage) (interface{}, error) {
 						finals[wi][id] = v
 					}
 				}
-				if err := w.Batch(b.ToBluge()); err != nil {
+				var st []string
+				for id, v := range finals[wi] {
+					st = append(st, id+"="+v)
+				}
+				sort.Strings(st)
+				states[wi] = append(states[wi], fmt.Sprint(st))
+				rb := b.ToBluge()
+				if cs.Unsafe {
+					nth := int32(k + 1)
+					rb.SetPersistedCallback(func(err error) {
+						if err != nil {
+							return
+						}
+						for {
+							cur := atomic.LoadInt32(&persistedUpTo[wi])
+							if cur >= nth || atomic.CompareAndSwapInt32(&persistedUpTo[wi], cur, nth) {
+								return
+							}
+						}
+					})
+				}
+				if err := w.Batch(rb); err != nil {
 					fail(fmt.Sprintf("writer %d batch %d: %v", wi, k, err))
 				}
 				op("batch")
@@ -273,6 +299,34 @@ func c15Child(in json.RawMessage) (interface{}, error) {
 		sort.Strings(want)
 		if fmt.Sprint(want) != fmt.Sprint(d) {
 			res.ReopenDiff = fmt.Sprintf("reopened index shows %v, acknowledged batches give %v", d, want)
+		}
+	} else {
+		// unsafe mode: the writers' id spaces are disjoint and each writer issues its batches one after the
+		// other, so what is on disk, restricted to one writer's ids, is that writer's state after SOME number
+		// of its batches - at least as many as were reported persisted before Close returned
+		for wi := range states {
+			var mine []string
+			for _, e := range d {
+				if strings.HasPrefix(e, fmt.Sprintf("w%dk", wi)) {
+					mine = append(mine, e)
+				}
+			}
+			got := fmt.Sprint(mine)
+			if len(mine) == 0 {
+				got = "[]"
+			}
+			from := int(atomic.LoadInt32(&persistedUpTo[wi]))
+			ok := false
+			for k := from; k < len(states[wi]); k++ {
+				if states[wi][k] == got {
+					ok = true
+				}
+			}
+			op("unsafe_reopen_prefix_checks")
+			if !ok {
+				res.ReopenDiff = fmt.Sprintf("unsafe mode, writer %d: %d of its batches were reported persisted before Close returned; the reopened index shows %s for its ids, which is its state after none of its batches %d..%d (state after %d: %s; after all: %s)", wi, from, got, from, len(states[wi])-1, from, states[wi][from], states[wi][len(states[wi])-1])
+				break
+			}
 		}
 	}
 	return res, nil
